@@ -474,12 +474,13 @@ def run_property(prop, tier, a):
 
 def native_search(C, unit, rec, seed, tier, cache):
     ct = C.BY_NAME.get(unit.get('target'))
-    if ct is None or not ct.search or rec.get('kind') not in ('ensures', 'exception'):
+    if ct is None or not ct.search or rec.get('kind') not in ('ensures', 'exception', 'precondition'):
         return None
-    ck = (ct.target, rec.get('clause'))
+    ck = (ct.target, rec.get('clause') if rec.get('kind') != 'precondition' else '<any clause>')
     if ck in cache:
         return cache[ck]
     from pyvc import gens, bounded
+    # an open precondition of a callee is searched as "any clause of this function fails on the real code"
     clause = [rec['clause']] if rec['kind'] == 'ensures' else None
     res = bounded.run_bounded(ct, gens.GENS[ct.search](seed, tier), clauses=clause, max_fail=1, budget_s=60)
     out = res['failures'][0] if res['failures'] else None
